@@ -72,6 +72,17 @@ def run_config(chk, config):
             cipher = dirs <= {True, None} and bool(firsts) and not any(first_lids & set(c["done"]) for c in chain) and \
                 (not walked or any(chain_lids & set(x["done"]) for x in firsts))
             why = "descending walk (or keys taken before any XOR) with block 0 decrypted last: block i-1 still holds ciphertext"
+        if not cipher and any(not x["known_digest"] for x in xs) and not firsts:
+            chk.notes.append("undecided clause (C12): %s XORs with keys carried over from another round; which block holds ciphertext when a key is taken is not decided" % name)
+            chk.extra.setdefault("construction_not_understood", {}).setdefault(name, []).append("keys carried from round to round")
+            cipher = True
+        merged = [x for x in firsts if any(x["lid"] not in c["done"] and c["lid"] not in x["done"] for c in walked)]
+        if merged and not cipher:
+            # the block-0 step runs inside the chain loop (one loop with a special round): which blocks still hold
+            # ciphertext when a key is taken depends on when that round happens - not decided by this rule
+            chk.notes.append("undecided clause (C12): %s handles block 0 inside the chain loop; ciphertext-chaining not decided for this shape" % name)
+            chk.extra.setdefault("construction_not_understood", {}).setdefault(name, []).append("block 0 handled inside the chain loop")
+            cipher = True
         chk.oblig(cipher, "ciphertext-chaining | %s" % name,
                   "%s chains on a block that does not hold ciphertext at that point (walk direction %s)" % (name, ["down" if d else "up" for d in dirs]),
                   {"rule": "c_{i-1} is the previous CIPHERTEXT block", "walk_downwards": sorted(dirs)},
